@@ -29,7 +29,7 @@ CLAIM = {
     "design": "DESIGN.md 4/C02 + design_notes/C02.md",
 }
 GEN_FILES = ["KHydIncompNp", "KHydIncompNb", "KHydCompNp", "KHydCompNb", "KPmNp", "KFriction", "KBasicRes", "KGasResNp",
-             "KGasResNb", "KPamb"]
+             "KGasResNb", "KPamb", "KBranchProps"]
 GEN = kernels.gen_entries(GEN_FILES)
 
 
@@ -121,6 +121,41 @@ def monitor(ctx, wide=False):
                                "lhs": lhs, "rhs": rhs,
                                "how": "net = harness.gen.build(spec); pipeflow(net, friction_model=..., **options); "
                                       "harness.c02_law.check_net(net, friction_model)"})
+    # liquid nets with a solved temperature field (mode="bidirectional"): hot and cold supplies mix, heat losses; the law is
+    # recomputed with eta at (T_inlet + t_outlet_k)/2 and rho = mean of rho(T_inlet), rho(t_outlet_k)
+    n_mix = 8 if ctx.quick else 150
+    for i in range(n_mix * (3 if wide else 1)):
+        fm = fms[i % 3]
+        spec = L.mixing_net_feeding(ctx.rng)
+        if spec is None:
+            ctx.count("mixing_net_not_admissible")
+            continue
+        nb = i % 4 == 3
+        net = gen.build(spec)
+        opts = dict(L.TIGHT, tol_T=1e-9)
+        st, msg = drive.run(net, friction_model=fm, use_numba=nb, mode="bidirectional", **opts)
+        ctx.count("run:water-mixing/bidirectional/%s/%s/%s" % (fm, "numba" if nb else "numpy", st))
+        if st != "ok":
+            n_nc += 1
+            ctx.case({"spec": spec, "friction_model": fm, "status": st}, False)
+            continue
+        try:
+            k, kf, bad = L.check_net(net, fm, thermal=True)
+        except Exception as e:
+            ctx.broken("monitor", "c02_law.check_net raised (thermal)", repr(e))
+            continue
+        n_sec += k
+        n_flow += kf
+        ctx.case({"spec": spec, "friction_model": fm, "use_numba": nb, "mode": "bidirectional", "sections": k}, kf > 0)
+        for what, s, lhs, rhs in bad[:3]:
+            ctx.violation({"clause": what.split(":")[0].split("(")[0].strip(), "table": s["tbl"], "friction_model": fm,
+                           "gas": False, "use_numba": nb, "mode": "bidirectional"},
+                          "%s: pipe %s (bidirectional run, inlet %.2f K, outlet %.2f K): %r vs %r (m = %r kg/s)"
+                          % (what, s["idx"], s["t_i"], s["t_i1"], lhs, rhs, s["m"]),
+                          {"spec": spec, "friction_model": fm, "use_numba": nb, "mode": "bidirectional", "options": opts,
+                           "section": s, "lhs": lhs, "rhs": rhs,
+                           "how": "net = harness.gen.build(spec); pipeflow(net, mode='bidirectional', friction_model=..., "
+                                  "**options); harness.c02_law.check_net(net, friction_model, thermal=True)"})
     ctx.count("Pipe.get_internal_results raised IndexError (fallback to the pit)", len(L.API_ERRORS))
     ctx.count("sections_checked", n_sec)
     ctx.count("sections_flowing", n_flow)
@@ -133,8 +168,9 @@ def replay(ctx, path):
     from harness import gen, drive, c02_law as L
     r = json.load(open(path))["replay"]
     net = gen.build(r["spec"])
-    st, msg = drive.run(net, friction_model=r["friction_model"], use_numba=r["use_numba"], mode="hydraulics", **L.TIGHT)
+    st, msg = drive.run(net, friction_model=r["friction_model"], use_numba=r["use_numba"], mode=r.get("mode", "hydraulics"),
+                        **r.get("options", L.TIGHT))
     ctx.note("replay run: %s %s" % (st, msg))
     if st == "ok":
-        for what, s, lhs, rhs in L.check_net(net, r["friction_model"])[2]:
+        for what, s, lhs, rhs in L.check_net(net, r["friction_model"], thermal=r.get("mode") == "bidirectional")[2]:
             ctx.violation({"clause": what, "table": s["tbl"]}, "%s: %r vs %r" % (what, lhs, rhs), r)
